@@ -135,7 +135,20 @@ def rand_right_element(rng, kind, left_pts, lo=-1, hi=6):
 # --------------------------------------------------------------------------
 # frame metadata
 # --------------------------------------------------------------------------
+# a pd.RangeIndex whose labels are not the row positions: given directly, or what
+# df.iloc[12:] / df.tail(n) / df.iloc[1::2] / df.iloc[3:..:3] leave behind (frame sliced out of a
+# longer one: also non-zero buffer offsets in the geometry column)
+RANGE_STYLES = {'range-offset': (['rangeindex', 5, 3, None], None),
+                'range-named': (['rangeindex', 2, 1, 'rx'], None),
+                'range-negative': (['rangeindex', -4, 2, None], None),
+                'iloc-tail': (['rangeindex', 12, 1, None], [12, 1, 0]),
+                'iloc-step': (['rangeindex', 1, 2, None], [1, 2, 1]),
+                'iloc-mid': (['rangeindex', 3, 3, None], [3, 3, 4])}
+
+
 def left_index(style, n):
+    if style in RANGE_STYLES:
+        return list(RANGE_STYLES[style][0])
     if style == 'range':
         return ['range']
     if style == 'named-int':
@@ -154,6 +167,8 @@ def left_index(style, n):
 
 
 def right_index(style, n):
+    if style in RANGE_STYLES:
+        return list(RANGE_STYLES[style][0])
     if style == 'range':
         return ['range']
     if style == 'named-str':
@@ -195,6 +210,20 @@ META = [
     # suffixed name equal to an unrelated, non-clashing name on the same side is fine? (no: MergeError too)
     ('range', 'geometry', 0, ['b'], 'range', 'geometry', 0, ['b', 'b_right'], 'left', 'right'),
 ]
+# RangeIndex labels != positions, on the left, on the right, on both
+META_RANGE = [
+    ('range-offset', 'geometry', 0, ['a'], 'range', 'geometry', 0, ['a', 'c'], 'left', 'right'),
+    ('range', 'geometry', 0, ['a'], 'range-offset', 'geometry', 0, ['a', 'c'], 'left', 'right'),
+    ('iloc-tail', 'geometry', 1, ['a', 'b'], 'iloc-step', 'geometry', 0, ['c'], 'left', 'right'),
+    ('iloc-step', 'pt', 0, ['a'], 'iloc-tail', 'shape', 1, ['a'], 'x', 'y'),
+    ('iloc-mid', 'geometry', 0, [], 'named-str', 'geometry', 0, ['a'], 'left', 'right'),
+    ('named-int', 'geometry', 0, ['a'], 'iloc-mid', 'geometry', 2, ['a', 'b'], 'left', 'right'),
+    ('range-named', 'geometry', 0, ['a'], 'range-negative', 'geometry', 0, ['a'], 'L', 'R'),
+    ('range-negative', 'geometry', 0, ['v'], 'range-named', 'geometry', 0, ['v'], 'left', 'right'),
+]
+META = META + META_RANGE
+# the configurations the geometry scopes (A), (B) cycle through
+META_GEOM = META[:8] + META_RANGE
 # pending the decision on findings F1 (1-level MultiIndex loses its name) and F2 (suffix 'x' /
 # 'x0' with a MultiIndex -> KeyError): modelled faithfully and compared with the model
 META_FINDINGS = [
@@ -211,6 +240,9 @@ def make_specs(meta, left_elems, lsub, kind, right_elems, rsub):
              'cols': list(lcols), 'id': 'lid', 'index': left_index(lix, len(left_elems))}
     rspec = {'kind': kind, 'subtype': rsub, 'elems': right_elems, 'geom': rg, 'gpos': rgp,
              'cols': list(rcols), 'id': 'rid', 'index': right_index(rix, len(right_elems))}
+    for spec, style in ((lspec, lix), (rspec, rix)):
+        if style in RANGE_STYLES and RANGE_STYLES[style][1] is not None:
+            spec['slice'] = list(RANGE_STYLES[style][1])
     return lspec, rspec, ls, rs
 
 
@@ -220,7 +252,7 @@ def make_specs(meta, left_elems, lsub, kind, right_elems, rsub):
 class Frames:
     """the real frames of a (lspec, rspec) pair and what is derived from them once"""
 
-    def __init__(self, lspec, rspec):
+    def __init__(self, lspec, rspec, boxes_oracle=False):
         self.lspec, self.rspec = lspec, rspec
         self.ldf, self.lorder = U.build_frame(lspec, 'L')
         self.rdf, self.rorder = U.build_frame(rspec, 'R')
@@ -232,11 +264,34 @@ class Frames:
         self.rmeta = U.fmeta_term(rspec, self.rorder)
         self.closed = U.rings_closed(rspec['kind'], rspec['elems'])
         self._brute = False
+        if boxes_oracle:
+            self._brute = boxes_pairs(lspec['elems'], rspec['elems'])
 
     def brute(self):
         if self._brute is False:
             self._brute = U.brute_pairs(self.larr, self.rarr)
         return self._brute
+
+
+def boxes_pairs(points, boxes):
+    """pair set for right elements that are single axis-parallel squares sq(x0, y0, x1, y1) and
+    points none of which lies on a square's boundary: numpy comparison of coordinates (used where
+    the scalar brute force would need > 10^6 calls)"""
+    px = np.array([np.nan if p is None else p[0] for p in points], dtype='float64')
+    py = np.array([np.nan if p is None else p[1] for p in points], dtype='float64')
+    out = []
+    for r, b in enumerate(boxes):
+        if not b:
+            continue
+        ring = b[0]
+        xs, ys = ring[0::2], ring[1::2]
+        x0, x1, y0, y1 = min(xs), max(xs), min(ys), max(ys)
+        assert len(b) == 1 and sorted(set(xs)) == [x0, x1] and sorted(set(ys)) == [y0, y1]
+        assert not np.any(((px == x0) | (px == x1)) & (py >= y0) & (py <= y1))
+        assert not np.any(((py == y0) | (py == y1)) & (px >= x0) & (px <= x1))
+        for l in np.nonzero((px > x0) & (px < x1) & (py > y0) & (py < y1))[0]:
+            out.append((int(l), r))
+    return sorted(out)
 
 
 def expected_rows(how, pairs, nl, nr):
@@ -257,11 +312,13 @@ def gen_index_names(spec, suffix):
     return [f'index_{suffix}']
 
 
-def run_call(rep, fr, how, ls, rs, batch, meta_desc):
+def run_call(rep, fr, how, ls, rs, batch, meta_desc, model=True):
     """run the real sjoin once; direct checks; queue the model comparison"""
     from spatialpandas import GeoDataFrame, sjoin
     lspec, rspec = fr.lspec, fr.rspec
     replay = {'left': lspec, 'right': rspec, 'how': how, 'lsuffix': ls, 'rsuffix': rs}
+    if not model:
+        replay['model'] = False
     rep.evaluations += 1
     rep.count('how:' + how)
     rep.count('right:' + rspec['kind'])
@@ -341,6 +398,10 @@ def run_call(rep, fr, how, ls, rs, batch, meta_desc):
         rep.count('unclosed_ring(model only)')
     if any(a is None or b is None for a, b in rows):
         rep.count('has_unmatched_rows')
+    if not model:
+        rep.count('bruteforce_only(large)')
+        rep.nontrivial((how, ls, rs, 'large', len(fr.larr), repr(fr.rshapes), repr(meta_desc)))
+        return
     # --- model comparison (queued)
     res = Some(Raw('(inr ' + C.coq((U.rows_term(rows), [str(c) for c in out.columns],
                                     [None if n is None else Some(str(n)) for n in out.index.names],
@@ -348,8 +409,9 @@ def run_call(rep, fr, how, ls, rs, batch, meta_desc):
                    + ')'))
     batch.append((fr, how, ls, rs, res, replay))
     rep.nontrivial((how, ls, rs, repr(fr.lrec), repr(fr.rshapes), repr(meta_desc)))
-    rep.sample({'how': how, 'left': lspec['elems'], 'right_kind': rspec['kind'], 'right': rspec['elems'],
-                'rows': rows, 'columns': list(out.columns), 'index_names': list(out.index.names)}, cap=4)
+    if len(lspec['elems']) <= 40:
+        rep.sample({'how': how, 'left': lspec['elems'], 'right_kind': rspec['kind'], 'right': rspec['elems'],
+                    'rows': rows, 'columns': list(out.columns), 'index_names': list(out.index.names)}, cap=4)
 
 
 def case_term(fr, how, ls, rs):
@@ -415,7 +477,7 @@ def gen_cases(rep, tier):
         frames.append([None] * 2)
         frames.append([])
         for j, els in enumerate(frames):
-            meta = META[k % 8]
+            meta = META_GEOM[k % len(META_GEOM)]
             k += 1
             lsub = SUBS[k % 5]
             rsub = 'float64' if kind == 'point' else SUBS[(k // 5) % 5]
@@ -435,7 +497,7 @@ def gen_cases(rep, tier):
         if quick:
             combos = rng.sample(combos, min(len(combos), 110))
         for le, ri in combos:
-            meta = META[k % 8]
+            meta = META_GEOM[k % len(META_GEOM)]
             k += 1
             yield (*make_specs(meta, le, 'float64', kind, ri, 'float64'), [HOW3[k % 3]] if quick else HOW3, meta)
     # (C) metadata: every META row (and the rows of the pending findings) x every how on a fixed
@@ -465,6 +527,32 @@ def gen_cases(rep, tier):
         meta = META[0]
         yield (*make_specs(meta, [[-5, 1], [2, 1], [5, 1], [2, 2]], 'float64', 'polygon', [[ring]], 'float64'),
                HOW3, meta)
+
+
+def large_cases(tier):
+    """left frames longer than the default page size (512) of the spatial index that sjoin builds:
+    multi-page trees, pages holding only missing points, NaN internal nodes.
+    yields (lspec, rspec, ls, rs, [(how, compare with the model?)], meta)"""
+    def grid(n, w=40):
+        return [[i % w, i // w] for i in range(n)]
+    right = [[sq(0, 0, 4, 4)], [sq(3, 3, 10, 8)], None, [sq(100, 100, 101, 101)], [],
+             [sq(30, 20, 45, 40), sq(32, 22, 34, 24, cw=True)], [sq(-5, -5, 60, 60)]]
+    v300 = grid(300, 20)
+    lefts = [
+        ('600 missing + 300 valid', [None] * 600 + v300, True),
+        ('300 valid + 600 missing', v300 + [None] * 600, False),
+        ('1500 valid + 700 missing (interleaved blocks)',
+         [p for b in range(7) for p in (grid(1500)[b * 215:(b + 1) * 215] + [None] * 100)][:2200], False),
+        ('1100 valid', grid(1100), False),
+        ('513 missing + 1 valid', [None] * 513 + [[2, 2]], False),
+        ('1030 valid, all one point + 520 missing', [[3, 3]] * 1030 + [None] * 520, False),
+    ]
+    metas = [META[0], META_RANGE[2], META[1]]
+    for k, (name, le, with_model) in enumerate(lefts if tier != 'quick' else lefts[:5]):
+        meta = metas[k % len(metas)]
+        ri = right if k != 5 else right[:4]
+        hows = [('inner', with_model), ('left', False), ('right', with_model)]
+        yield (*make_specs(meta, le, 'float64', 'polygon', ri, 'float64'), hows, ('large', name))
 
 
 def validation_checks(rep):
@@ -503,9 +591,14 @@ def run(rep):
                 'slots over {missing, 3 points}; random n<=8 with duplicates and missing; 5 subtypes) x right '
                 'frames of the 7 geometry kinds (catalogue shapes alone and in threes with missing / empty '
                 'rows, overlapping and nested polygons, far shapes, zero rows; every frame of <=2 rows over '
-                '{missing, empty, 3 shapes}; random structured) x how in {inner,left,right} x 19 metadata '
-                'configurations (index kinds, geometry column name/position, clashing payload names, suffix '
-                'choices, generated-name clashes, equal suffixes, MergeError) ; a case is non-trivial when '
+                '{missing, empty, 3 shapes}; random structured) x how in {inner,left,right} x 27 metadata '
+                'configurations (index kinds incl. RangeIndex whose labels are not the positions - offset / '
+                'stepped / negative / named, and frames cut out of longer ones by iloc[12:], iloc[1::2], '
+                'iloc[3::3] on either side; geometry column name/position, clashing payload names, suffix '
+                'choices, generated-name clashes, equal suffixes, MergeError); left frames longer than the '
+                'default index page size 512 (600 missing + 300 valid, 1500 valid + 700 missing, 1100 valid, '
+                '513 missing + 1 valid; 1140 scattered points each queried by its own square) against the '
+                'brute-force pair set; a case is non-trivial when '
                 'sjoin returned a frame or a modelled error; distinct = distinct (how, suffixes, exported '
                 'buffers, metadata)')
     validation_checks(rep)
@@ -522,6 +615,22 @@ def run(rep):
         if len(batch) >= 1200:
             flush(rep, batch)
             check_guards(rep, frames)
+    # one tiny square around every one of 1100 scattered points (+ 40 missing): every row of a
+    # three-page tree has to be found by its own query
+    pts = [[4 * ((i * 389) % 1103), 4 * ((i * 733) % 1103)] for i in range(1100)]
+    lspec, rspec, ls, rs = make_specs(META[0], pts[:700] + [None] * 40 + pts[700:], 'float64', 'polygon',
+                                      [[sq(p[0] - 1, p[1] - 1, p[0] + 1, p[1] + 1)] for p in pts], 'float64')
+    fr = Frames(lspec, rspec, boxes_oracle=True)
+    frames.append(fr)
+    rep.count('large_left_frame')
+    for how in (HOW3 if tier != 'quick' else ['inner']):
+        run_call(rep, fr, how, ls, rs, batch, ('large', 'one query per row'), model=False)
+    for lspec, rspec, ls, rs, hows, meta in large_cases(tier):
+        fr = Frames(lspec, rspec)
+        frames.append(fr)
+        rep.count('large_left_frame')
+        for how, with_model in hows:
+            run_call(rep, fr, how, ls, rs, batch, meta, model=with_model)
     flush(rep, batch)
     check_guards(rep, frames)
 
@@ -540,7 +649,7 @@ def replay(rep, rp):
         return not rep.violations
     fr = Frames(rp['left'], rp['right'])
     batch = []
-    run_call(rep, fr, rp['how'], rp['lsuffix'], rp['rsuffix'], batch, None)
+    run_call(rep, fr, rp['how'], rp['lsuffix'], rp['rsuffix'], batch, None, model=rp.get('model', True))
     for v in rep.violations:
         print('direct check:', v['signature'], '-', v['what'])
     ok = not rep.violations
